@@ -305,9 +305,9 @@ def linkOff (s : St) (l : Nat) : St :=
 
 def linkOnEv (s : St) (l : Nat) : St := { s with linkOn := upd s.linkOn l true }
 
-/-- `true`: `CommImpl::start` as it is in /repo now (`xbt_assert(from_->is_on()); xbt_assert(to_->is_on());`);
-`false`: the code with props/C10/proposed_fix.diff applied (the comm fails with SRC/DST_HOST_FAILURE instead). -/
-def startAsserts : Bool := true
+/-- `false`: `CommImpl::start` as it is in /repo now (fix commit fcd7d0e96a: the comm fails with SRC/DST_HOST_FAILURE);
+`true`: the code before the fix (`xbt_assert(from_->is_on()); xbt_assert(to_->is_on());` aborted the simulation). -/
+def startAsserts : Bool := false
 
 /-- `CommImpl::start` -/
 def commStart (s : St) (k : Nat) : St :=
